@@ -245,3 +245,54 @@ func VH_C17_client_identity() {
 	verifAssert("C17.identity.overlap-counted-once", verifEqNanos(verifCounterValue(m.tunnelTimeMetrics.tunnelTimePerKey, "ns", "k1"), d1+d2+d3))
 	verifReach("C17.identity.mixed-forms", len(fa) != len(fb))
 }
+
+// connection-metrics objects may be recycled by the implementation: an unauthenticated connection
+// that follows an authenticated one (same client) never stops that client's open tunnel
+func VH_C17_unauthenticated_after_authenticated() {
+	verifInstallClock(1 << 41)
+	m, _ := NewServiceMetrics(nil)
+	ip := net.IPv4(203, 0, 113, 5)
+	local := &net.TCPAddr{IP: net.IPv4(192, 0, 2, 1), Port: 443}
+	var total int64
+	a := m.AddOpenTCPConnection(&verifConn{remote: &net.TCPAddr{IP: ip, Port: 50000}, local: local})
+	a.AddAuthenticated("k1")
+	total += verifAdvance()
+	a.AddClosed("OK", metrics.ProxyMetrics{}, time.Second)
+	verifAdvance() // no tunnel open: not counted
+	u := m.AddUDPNatEntry(&net.UDPAddr{IP: ip, Port: 40000}, "k1")
+	total += verifAdvance()
+	// a probe (or a client with a stale key, or a refused replay) from the same address
+	p := m.AddOpenTCPConnection(&verifConn{remote: &net.TCPAddr{IP: ip, Port: 50001}, local: local})
+	p.AddProbe("ERR_CIPHER", "eof", 50)
+	p.AddClosed("ERR_CIPHER", metrics.ProxyMetrics{ClientProxy: 50}, time.Second)
+	verifAssert("C17.recycled.tunnel-still-open", len(m.tunnelTimeMetrics.activeClients) == 1)
+	total += verifAdvance()
+	u.RemoveNatEntry()
+	verifAssert("C17.recycled.tunnel-closed-by-its-own-end", len(m.tunnelTimeMetrics.activeClients) == 0)
+	verifAdvance()
+	m.tunnelTimeMetrics.Collect(make(chan prometheus_Metric, 16))
+	verifAssert("C17.recycled.total", verifEqNanos(verifCounterValue(m.tunnelTimeMetrics.tunnelTimePerKey, "ns", "k1"), total))
+	verifAssert("C17.recycled.nothing-under-the-empty-key", verifCounterValue(m.tunnelTimeMetrics.tunnelTimePerKey, "ns", "") == 0)
+	verifReach("C17.recycled.done", true)
+}
+
+// two clients with different locations are active at a scrape: each one's time goes under its
+// own key and its own location
+func VH_C17_two_locations_at_a_scrape() {
+	verifInstallClock(1 << 41)
+	db := &verifPerAddrDB{}
+	c := newTunnelTimeMetrics(db)
+	k4 := IPKey{netip.AddrFrom4([4]byte{203, 0, 113, 4}), "even"} // database: AA / 64500
+	k5 := IPKey{netip.AddrFrom4([4]byte{203, 0, 113, 5}), "odd"}  // database: BB / 64501
+	c.startConnection(k4)
+	d0 := verifAdvance()
+	c.startConnection(k5)
+	d1 := verifAdvance()
+	c.Collect(make(chan prometheus_Metric, 16))
+	verifAssert("C17.two-locations.per-key", verifEqNanos(verifCounterValue(c.tunnelTimePerKey, "ns", "even"), d0+d1) && verifEqNanos(verifCounterValue(c.tunnelTimePerKey, "ns", "odd"), d1))
+	verifAssert("C17.two-locations.per-location", verifEqNanos(verifCounterValue(c.tunnelTimePerLocation, "ns", "AA", "64500", "Org-even"), d0+d1) && verifEqNanos(verifCounterValue(c.tunnelTimePerLocation, "ns", "BB", "64501", "Org-odd"), d1))
+	verifAssert("C20.two-locations.each-client-under-its-own-location", verifEqNanos(verifCounterValue(c.tunnelTimePerLocation, "ns", "BB", "64501", "Org-odd"), d1))
+	c.stopConnection(k4)
+	c.stopConnection(k5)
+	verifReach("C17.two-locations.done", true)
+}
